@@ -99,6 +99,7 @@ func (c *FnCtx) builtin(fr *Frame, st *State, b *ssa.Builtin, args []Val, call *
 		return &r
 	case "delete":
 		mt := args[0].T.Underlying().(*types.Map)
+		c.onMapDelete(fr, st, args[0], args[1], pos)
 		c.eng.onMapWrite(c, st, args[0].E, pos)
 		// delete on a nil map is a no-op
 		c.guarded(st, "(not (= "+args[0].E+" 0))", func(gs *State) { c.mapDelete(gs, mt, args[0].E, args[1].E) })
@@ -295,7 +296,7 @@ func (c *FnCtx) callWithContract(fr *Frame, st *State, fn *ssa.Function, spec *F
 	if len(vs) == 1 {
 		env2.names["result"] = vs[0]
 	}
-	c.bindLets(env2, spec)
+	c.tryBindLets(env2, spec)
 	for _, e := range spec.Ensures {
 		if e.Mode != "" && e.Mode != c.mode {
 			continue
@@ -362,6 +363,28 @@ func (c *FnCtx) bindParams(env *Env, fn *ssa.Function, spec *FuncSpec, args []Va
 		if env.freeBind != nil && k < len(env.freeBind) {
 			env.names["&"+fv.Name()] = env.freeBind[k]
 		}
+	}
+}
+
+// tryBindLets: at a call site, lets that talk about the callee's internal ghost handles (lastarg of a call the caller
+// does not track, locals of the callee) have no meaning; they stay unbound and the clauses using them are skipped.
+func (c *FnCtx) tryBindLets(env *Env, spec *FuncSpec) {
+	for _, l := range spec.Lets {
+		func() {
+			defer func() {
+				if r := recover(); r != nil {
+					if _, isSpec := r.(specError); isSpec {
+						return
+					}
+					panic(r)
+				}
+			}()
+			e2 := *env
+			if l.Old {
+				e2.st = env.old
+			}
+			env.names[l.Name] = c.eval(&e2, l.E)
+		}()
 	}
 }
 
@@ -437,6 +460,8 @@ func (c *FnCtx) callUnknownOpaque(fr *Frame, st *State, fv Val, ft types.Type, a
 		c.unmodelled["callback of type "+shortTypeName(ft)] = true
 	}
 	n := c.sc.Define("cbn", sInt, c.heapGet(st, c.cbCallsComp()))
+	lockAtCall := c.sc.Define("cblk", "(Array Int Int)", c.heapGet(st, c.lockComp()))
+	genAtCall := c.sc.Define("cbgen", "(Array Int Int)", c.heapGet(st, c.lockGenComp()))
 	c.eng.onCallback(c, st, cb, fv, args, pos)
 	c.havocSet(st, m, "cb")
 	if cb != nil {
@@ -453,9 +478,21 @@ func (c *FnCtx) callUnknownOpaque(fr *Frame, st *State, fv Val, ft types.Type, a
 	for k := 0; k < resT.Len(); k++ {
 		vs = append(vs, c.fresh("cbret", resT.At(k).Type(), st))
 	}
-	// ghost call log: which function value was called n-th, and what it returned
+	// ghost call log: which function value was called n-th, with which (interface-typed) arguments, what it returned,
+	// and which locks were held (and in which acquisition) when it was called
 	fh := c.comp("ghost$cbfn", "(Array Int Int)")
 	c.heapSet(st, fh, "(store "+c.heapGet(st, fh)+" "+n+" "+fv.E+")")
+	lh := c.comp("ghost$cblock", "(Array Int (Array Int Int))")
+	c.heapSet(st, lh, "(store "+c.heapGet(st, lh)+" "+n+" "+lockAtCall+")")
+	gh := c.comp("ghost$cblockgen", "(Array Int (Array Int Int))")
+	c.heapSet(st, gh, "(store "+c.heapGet(st, gh)+" "+n+" "+genAtCall+")")
+	for k, a := range args {
+		if c.ty.SortOf(a.T) != sIface {
+			continue
+		}
+		ah := c.comp(fmt.Sprintf("ghost$cbarg$Iface$%d", k), "(Array Int Iface)")
+		c.heapSet(st, ah, "(store "+c.heapGet(st, ah)+" "+n+" "+a.E+")")
+	}
 	for k, v := range vs {
 		srt := c.ty.SortOf(v.T)
 		if srt != sInt && srt != sBool && srt != sIface {
@@ -796,4 +833,57 @@ func (c *FnCtx) specModPatterns(fn *ssa.Function, spec *FuncSpec) []string {
 		out = append(out, p)
 	}
 	return out
+}
+
+// onMapStep: step contracts `ondelete m: expr` / `onmapstore m: expr` are obligations at each delete(m, key) resp.
+// m[key] = val reached while verifying a function whose contract declares them (also inside inlined callees and
+// closures), evaluated in the state just BEFORE the map changes, with `key` (and `val`) bound.  Names resolve in the
+// frame of the statement first, then in the frames of its (inlined) callers.
+func (c *FnCtx) onMapDelete(fr *Frame, st *State, m, key Val, pos token.Pos) {
+	c.onMapStep(fr, st, "delete", m, key, nil, pos)
+}
+
+func (c *FnCtx) onMapStep(fr *Frame, st *State, what string, m, key Val, val *Val, pos token.Pos) {
+	if c.sc.pure {
+		return
+	}
+	// the contract that declares step clauses: the statement's own function or any caller it is inlined into
+	for f := fr; f != nil; f = f.parent {
+		spec := c.specFor(f)
+		if spec == nil {
+			continue
+		}
+		clauses := spec.OnDelete
+		if what == "store" {
+			clauses = spec.OnMapStore
+		}
+		for k, sc := range clauses {
+			if sc.Mode != "" && sc.Mode != c.mode {
+				continue
+			}
+			env := c.newEnv(fr, st, fr.entry)
+			env.anyDef = true
+			env.upFrames = true
+			if blk := c.curBlock; blk != nil {
+				for _, l := range fr.loops {
+					if l.body[blk] && (env.loop == nil || len(l.body) < len(env.loop.body)) {
+						env.loop = l
+					}
+				}
+			}
+			if m.From != sc.Chan {
+				mv, ok := c.tryLookup(env, sc.Chan)
+				if !ok || mv.E != m.E {
+					continue
+				}
+			}
+			env.names["key"] = key
+			if val != nil {
+				env.names["val"] = *val
+			}
+			g := c.evalBool(env, sc.E)
+			o := c.obligation(st, "step", what+"."+sc.Chan+"."+clauseName(sc.Clause, k), g, pos)
+			o.Desc = "at every " + what + " on " + sc.Chan + ": " + sc.Text
+		}
+	}
 }
